@@ -188,6 +188,16 @@ Theorem c19_concurrent_vec_prefix_complete : forall val s, WritersModel.cvreach 
 Proof. exact Writers.cv_prefix_complete. Qed.
 Print Assumptions c19_concurrent_vec_prefix_complete.
 
+(** NotificationList::notify between two resets: at quiescence the list holds exactly the ids that
+    were notified, each exactly once (no lost notification, no duplicate), for any number of
+    notifying threads and any interleaving of their load / swap / push steps *)
+Theorem c19_notification_none_lost : forall n s, WritersModel.nreach n s ->
+  (forall c, nth c (WritersModel.npcs s) WritersModel.NIdle = WritersModel.NIdle) ->
+  forall k, (In k (WritersModel.nlist s) <-> In k (WritersModel.called s)) /\
+            count_occ Nat.eq_dec (WritersModel.nlist s) k <= 1.
+Proof. exact Writers.notification_none_lost. Qed.
+Print Assumptions c19_notification_none_lost.
+
 Example c19_writer_example :
   WritersModel.check_case ([9; 9], [(2, [1; 2; 3]); (5, []); (5, [4])], [9; 9; 1; 2; 3; 4]) = true.
 Proof. vm_compute. reflexivity. Qed.
